@@ -461,3 +461,56 @@ def seed_inputs_deterministic(ctx, R, tool, ds_cls):
             if not bad:
                 ctx.ok(R, tool.loc(site), "self.%s (<- %s) is computed from the map file and the command line only" % (attr, astq.text(actual[p])[:40]))
     ctx.floor(R, n, 1)
+
+
+
+def module_bound_names(mod):
+    """every name a module binds at its top level (assignments also inside try / if / with blocks, defs, classes, imports)"""
+    out = set()
+
+    def walk(body):
+        for st in body:
+            if isinstance(st, (ast.FunctionDef, ast.AsyncFunctionDef, ast.ClassDef)):
+                out.add(st.name)
+                continue
+            if isinstance(st, (ast.Import, ast.ImportFrom)):
+                for a in st.names:
+                    out.add((a.asname or a.name).split(".")[0])
+                continue
+            for x in ast.walk(st):
+                if isinstance(x, (ast.FunctionDef, ast.AsyncFunctionDef, ast.ClassDef, ast.Lambda)):
+                    continue
+                if isinstance(x, ast.Name) and isinstance(x.ctx, ast.Store):
+                    out.add(x.id)
+            for fld in ("body", "orelse", "finalbody"):
+                sub = getattr(st, fld, None)
+                if isinstance(sub, list) and sub and isinstance(sub[0], ast.stmt):
+                    walk(sub)
+            for h in getattr(st, "handlers", []) or []:
+                walk(h.body)
+    walk(mod.tree.body)
+    return out
+
+
+def undefined_package_attrs(prog, modules):
+    """(function, node, 'module.attr') for every read  alias.NAME  where alias is bound to a module of the package under
+    analysis and that module binds no such name: the read raises AttributeError when it is reached"""
+    out = []
+    cache = {}
+    for f in prog.functions.values():
+        if f.module.name.split(".")[-1] not in modules:
+            continue
+        for x in f.body_nodes():
+            if isinstance(x, ast.Attribute) and isinstance(x.value, ast.Name) and isinstance(x.ctx, ast.Load):
+                try:
+                    q = prog.qualify(f.module, x.value, f)
+                except Exception:
+                    q = None
+                m = prog.modules.get(q) if q else None
+                if m is None or x.value.id in f.all_param_names():
+                    continue
+                if q not in cache:
+                    cache[q] = module_bound_names(m)
+                if x.attr not in cache[q] and not x.attr.startswith("__"):
+                    out.append((f, x, "%s.%s" % (q.split(".")[-1], x.attr)))
+    return out
